@@ -22,7 +22,7 @@ LEVEL_NOTE = ("Trusted: Coq kernel, Go harness + Python glue. Modelled, not veri
               "re-staging of tables ADDED by a stash and untracked-table handling are outside the model), dolt_ignore, foreign keys, merge state; the stash merge is the "
               "small three-way merge of C31.")
 THEOREMS = ["stash_pop_working", "stash_pop_staged_iff", "stash_pop_id (partial: side condition nothing staged)", "stash_pop_id_refuted", "reset_hard_spec", "reset_soft_spec", "checkout_no_loss",
-            "checkout_move_clean_source", "checkout_plain_intact", "failed_step_unchanged"]
+            "checkout_move_clean_source", "checkout_plain_intact", "failed_step_unchanged", "pop_takes_latest", "stash_pop_conflict", "pop_touches_working_only", "stash_pushes_on_top"]
 REFUTED = ["stash_pop_id_refuted: stash;pop does not restore a staged modification (staged = head afterwards)"]
 RULE = ("two tables (pk,a,b), keys 1..3, values NULL/0..2; main and other start from different committed contents; 6-12 operations drawn from edit / add / add -A / commit / "
         "stash / pop / reset --hard [commit] / reset / reset t / reset --soft commit / checkout / checkout --move, biased so that stash is usually followed by pop and "
